@@ -613,6 +613,33 @@ impl<'a> Run<'a> {
 }
 
 
+//------------ Verification hooks (C29) --------------------------------------
+
+#[cfg(routinator_verif)]
+impl ReadRepository {
+    /// Creates a reader over a fresh, empty archive in the temp directory.
+    ///
+    /// The file is unlinked right after it has been opened.
+    pub(in crate::collector) fn verif_empty() -> Result<Arc<Self>, RunFailed> {
+        static COUNT: std::sync::atomic::AtomicU64
+            = std::sync::atomic::AtomicU64::new(0);
+        let path = Arc::new(std::env::temp_dir().join(format!(
+            "routinator-verif-{}-{}.bin",
+            std::process::id(),
+            COUNT.fetch_add(1, std::sync::atomic::Ordering::SeqCst)
+        )));
+        let _ = fs::remove_file(path.as_ref());
+        drop(RrdpArchive::create(path.clone())?);
+        let res = Self { archive: RrdpArchive::open(path.clone())? };
+        let _ = fs::remove_file(path.as_ref());
+        Ok(Arc::new(res))
+    }
+}
+//------------ End of verification hooks (C29) -------------------------------
+
+
+
+
 //------------ RrdpConfig ----------------------------------------------------
 
 /// The configuration of the RRDP collector.
@@ -1114,3 +1141,49 @@ impl<'a> RepositoryUpdate<'a> {
     }
 }
 
+
+//------------ Verification hooks (C30, C31) ---------------------------------
+//
+// Inherent methods on the public `Config` so that they can be reached from
+// outside the crate although this module is private.
+
+#[cfg(routinator_verif)]
+impl Config {
+    /// Starts a run of a new RRDP collector and returns a function that
+    /// performs the real `Run::load_repository` for a URI and reports what
+    /// happened: 0 = answered from the run’s `updated` map, 1 = rejected by
+    /// the dubious host filter, 2 = an update was attempted, 3 = failed
+    /// before any of these.
+    pub fn verif_rrdp_loader(
+        &self
+    ) -> Option<Box<dyn FnMut(&uri::Https) -> u8>> {
+        let mut collector = Collector::new(self).ok()??;
+        collector.ignite().ok()?;
+        let collector: &'static Collector = Box::leak(Box::new(collector));
+        let run = collector.start();
+        Some(Box::new(move |uri| {
+            let before = run.metrics.lock().len();
+            let res = run.load_repository(uri);
+            let metrics = run.metrics.lock();
+            if metrics.len() == before {
+                if res.is_ok() { 0 } else { 3 }
+            }
+            else if matches!(
+                metrics[metrics.len() - 1].notify_status,
+                HttpStatus::Rejected
+            ) {
+                1
+            }
+            else {
+                2
+            }
+        }))
+    }
+
+    /// Exposes `Collector::repository_path` (creates the directory).
+    pub fn verif_rrdp_repository_path(
+        &self, rpki_notify: &uri::Https
+    ) -> Option<PathBuf> {
+        Collector::new(self).ok()??.repository_path(rpki_notify).ok()
+    }
+}
